@@ -6,6 +6,7 @@
 //   facts constsoftype <pkgdir> <Type>   prints "<name> <value>" for every package-level constant of the named type
 //   facts maplit <file.go> <varname>     prints "<key src>\t<value src>" per entry of the composite (map) literal that
 //                                        initialises the package-level variable; fails if the variable is missing
+//   facts varsrc <file.go> <var>         prints the source text of a package-level var initialiser
 package main
 
 import (
@@ -13,6 +14,7 @@ import (
 	"fmt"
 	"go/ast"
 	"go/constant"
+	"go/importer"
 	"go/parser"
 	"go/printer"
 	"go/token"
@@ -28,8 +30,26 @@ func (f *fakeImporter) Import(path string) (*types.Package, error) {
 	if p, ok := f.pkgs[path]; ok {
 		return p, nil
 	}
+	if path == "math" {
+		// real constants of package math (math.MaxUint16, math.MaxUint64, ...) so that `const X = math.MaxUint16` resolves
+		if rp, err := importer.ForCompiler(token.NewFileSet(), "source", nil).Import(path); err == nil {
+			f.pkgs[path] = rp
+			return rp, nil
+		}
+	}
 	name := path[strings.LastIndex(path, "/")+1:]
 	p := types.NewPackage(path, name)
+	if path == "time" {
+		// typed duration constants (`500 * time.Millisecond`) must evaluate: provide time.Duration and its units
+		dur := types.NewNamed(types.NewTypeName(token.NoPos, p, "Duration", nil), types.Typ[types.Int64], nil)
+		p.Scope().Insert(dur.Obj())
+		for _, u := range []struct {
+			n string
+			v int64
+		}{{"Nanosecond", 1}, {"Microsecond", 1e3}, {"Millisecond", 1e6}, {"Second", 1e9}, {"Minute", 60e9}, {"Hour", 3600e9}} {
+			p.Scope().Insert(types.NewConst(token.NoPos, p, u.n, dur, constant.MakeInt64(u.v)))
+		}
+	}
 	p.MarkComplete()
 	f.pkgs[path] = p
 	return p, nil
@@ -246,6 +266,29 @@ func main() {
 			return
 		}
 		fail("func %s not found", os.Args[3])
+	case "varsrc":
+		// (added for C10) prints the normalised source text of the initialiser of a package-level var, e.g. a map literal
+		fset := token.NewFileSet()
+		f, err := parser.ParseFile(fset, os.Args[2], nil, parser.SkipObjectResolution)
+		if err != nil {
+			fail("parse: %v", err)
+		}
+		for _, d := range f.Decls {
+			gd, ok := d.(*ast.GenDecl)
+			if !ok || gd.Tok != token.VAR {
+				continue
+			}
+			for _, sp := range gd.Specs {
+				vs := sp.(*ast.ValueSpec)
+				for i, nm := range vs.Names {
+					if nm.Name == os.Args[3] && i < len(vs.Values) {
+						fmt.Println(src(fset, vs.Values[i]))
+						return
+					}
+				}
+			}
+		}
+		fail("var %s not found", os.Args[3])
 	default:
 		fail("unknown subcommand")
 	}
